@@ -346,6 +346,21 @@ def r17_8(prog, rep):
             rep.undecided("R17.8", f"{C.INSP}.{name}", insp.relpath, "predicate not found")
             continue
         rep.check(bool(fn(ts)), "R17.8", f.qualname, f.loc, f"computed from the facts its contract names ({why[name]})", f"no longer computed from the facts its contract names: {why[name]}", detail="facts")
+    # special forms are recognised by identity of the origin, never by its *name*: a user class may be called Union
+    for nm in ("isuniontype", "isoptionaltype", "isliteral"):
+        f, ts = rets(nm)
+        if f is None:
+            continue
+        by_name = []
+        for t0 in ts + [tm for pth in P.paths_of(prog, f) for tm in pth.all_terms()]:
+            for x in T.walk(t0):
+                if x[0] == "cmp" and x[1] in ("==", "in", "!=", "notin"):
+                    a, b = x[2], x[3]
+                    names_call = lambda y: T.contains(y, lambda z: T.is_call_to(z, f"{C.INSP}.name", f"{C.INSP}.qualname") or (z[0] == "attr" and z[2] in ("__name__", "__qualname__")))  # noqa: E731
+                    texts = lambda y: (y[0] == "const" and isinstance(y[1], str)) or (y[0] in ("tuple", "set", "list") and y[1] and all(e[0] == "const" and isinstance(e[1], str) for e in y[1]))  # noqa: E731
+                    if (names_call(a) and texts(b)) or (names_call(b) and texts(a)):
+                        by_name.append(T.show(x)[:70])
+        rep.check(not by_name, "R17.8", f.qualname, f.loc, "the special form is recognised by identity of the origin", f"{nm} compares the *name* of the origin with text ({by_name[0] if by_name else ''}): a user class named Union / UnionType / Optional is reported as that special form and routed to the union routine", detail="by-identity")
     # the bare qualifier counts as the qualifier: the compared subject falls back to the object itself
     for nm, target in (("isclassvartype", "typing.ClassVar"), ("isfinal", "typing.Final")):
         f, ts = rets(nm)
